@@ -21,6 +21,7 @@ RULE = ("cases = (frame of any geometry kind with 1-2 geometry columns and a cho
 ASSUMPTIONS = ["a raising call claims nothing (counted as 'raised'); a run where every call raised is "
                "inconclusive", "synchronous scheduler (schedules are C18's business)"]
 USE_CONTRACTS = True      # in-situ icontract monitors (vmon/contracts.py)
+SPLIT_KINDS = True         # thorough tier: one shard per geometry kind
 DECIDING_COUNTERS = ["packs_returned"]
 
 
